@@ -41,9 +41,9 @@ def run(ctx):
         cases.append({"kind": "expr_null", "chain": ["strict call with NULL sibling"], "p": 2, "n": 4, "sql": sql, "mustfail": True})
     for i, c in enumerate(cases):
         if c["kind"] == "deep":
-            # n = 20 000 rows (the 4 rows repeated), fault at row p; every row of t matches 10 rows of u, so that a join above the fault
+            # n = 20 000 rows (the 4 rows repeated), fault at row p; every row of t matches 3 rows of u, so that a join above the fault
             # consumes its input more slowly than the source produces it and the join's input channel is full when the fault occurs
-            t = {"t": {"fields": FIELDS, "rows": ROWS, "repeat": c["n"] // len(ROWS), "fail_at": c["p"]}, "u": {"fields": FIELDS, "rows": UROWS, "repeat": 10}}
+            t = {"t": {"fields": FIELDS, "rows": ROWS, "repeat": c["n"] // len(ROWS), "fail_at": c["p"]}, "u": {"fields": FIELDS, "rows": UROWS, "repeat": 3}}
         elif c["kind"] == "source":
             t = {"t": {"fields": FIELDS, "rows": ROWS, "fail_at": c["p"]}, "u": {"fields": FIELDS, "rows": UROWS}}
         else:
